@@ -21,7 +21,7 @@ ASSUMPTIONS = ["cadence is compared at whole seconds: an attendance less than 1 
                "the first notification may come at the first attendance after subscribing or one interval later (the statement speaks of the previous notification)",
                "objects have validity >> history length, so expiry plays no role here (C12 decides it)"]
 REQUIRED_COUNTERS = ["attendances", "must_notify_checked", "must_not_notify_checked", "callbacks_compared", "after_unsubscribe_checked", "invalid_requests_checked",
-                     "after_unsubscribe_inside_attendance_checked"]
+                     "after_unsubscribe_inside_attendance_checked", "attendances_with_an_addition_from_a_callback", "notification_spacings_checked"]
 
 CONSUMERS = (2, 16, 1, 14)
 TYPES = (2, 1, 16)
@@ -57,7 +57,7 @@ def gen(rng, maxlen):
                         "mult": rng.choice((None, 0, 1, 1, 2, 3, 5)), "interval_ms": rng.choice((None, 1, 1, 500, 1000, 2000, 5000)), "order": order,
                         "invalid": rng.choice((None,) * 5 + ("type", "priority", "interval", "multiplicity")),
                         # what the consumer's callback does when it is invoked (re-entrant use of IF.LDM.4 from a notification)
-                        "cb_action": rng.choice((None,) * 6 + ("unsub_self", "unsub_other", "unsub_other", "dereg_self", "dereg_other"))})
+                        "cb_action": rng.choice((None,) * 6 + ("unsub_self", "unsub_other", "unsub_other", "dereg_self", "dereg_other", "add_once", "add_once"))})
         elif r < 0.36:
             ops.append({"op": "unsub", "pick": rng.randrange(1 << 16), "bogus": rng.random() < 0.15})
         elif r < 0.70:
@@ -100,7 +100,7 @@ def gen_reentrant(rng, maxlen):
     for _ in range(rng.randrange(2, 6)):
         ops.append({"op": "sub", "app": rng.choice(apps), "types": [2], "filter": None, "mult": rng.choice((None, 1)),
                     "interval_ms": rng.choice((None, None, 1, 1000)), "order": None, "invalid": None,
-                    "cb_action": rng.choice((None, None, "unsub_self", "unsub_other", "unsub_other", "unsub_next", "unsub_next", "dereg_self", "dereg_other"))})
+                    "cb_action": rng.choice((None, None, "unsub_self", "unsub_other", "unsub_other", "unsub_next", "unsub_next", "dereg_self", "dereg_other", "add_once", "add_once"))})
     for _ in range(rng.randrange(3, 10)):
         r = rng.random()
         if r < 0.3:
@@ -135,6 +135,7 @@ def run_case(c, res):
         attend_log = []
         real_attend = svc.attend_subscriptions
 
+        midpass_adds = []     # event numbers of additions made from inside a callback
         seq = [0]            # one event counter for callbacks, ends of subscriptions and attendance passes
 
         def tick():
@@ -160,6 +161,21 @@ def run_case(c, res):
             if me is None or action is None:
                 return
             res.count(f"callback_actions[{action}]")
+            if action == "add_once":
+                # the consumer publishes into the LDM from inside its own notification (a warning application reacting to a
+                # CAM): with the reactive service the addition re-enters the attendance of all subscriptions
+                if me.get("added"):
+                    return
+                me["added"] = True
+                rng_ = random.Random(len(store) * 7919 + len(subs))
+                msg = H.message(rng_, 2)
+                now_ = H.its_now(clock)
+                req = AddDataProviderReq(2, TimestampIts(now_ - 100), H.location(H.LDM_LAT + 20000, H.LDM_LON + 20000), msg, TimeValidity(100000))
+                r = i3.add_provider_data(req)
+                if r.data_object_id >= 0:
+                    store[r.data_object_id] = {"rec": norm(req.to_dict()), "type": 2}
+                midpass_adds.append(tick())
+                return
             if action in ("unsub_self", "unsub_other", "unsub_next"):
                 if action == "unsub_self":
                     tgt = me if me["active"] else None
@@ -313,12 +329,18 @@ def run_case(c, res):
                 judged_upto += 1
                 res.count("attendances")
                 objs_now = list(store.values())
+                # a pass is 'dirty' when the store changed while it was under way or when another pass was nested in it / it was
+                # nested in another one (additions made from inside callbacks re-enter the attendance)
+                dirty = any(q0 < a_ < q1 for a_ in midpass_adds) or any((q0 < p_[2] < q1) or (p_[2] < q0 < p_[3]) for p_ in attend_log if p_[2] != q0)
+                if dirty:
+                    res.count("attendances_with_an_addition_from_a_callback")
                 for key, s in subs.items():
                     # entries appended during this pass = those between mark and the next pass' mark (or now)
-                    nxt = attend_log[judged_upto][1].get(key) if judged_upto < len(attend_log) else None
-                    new = s["log"][mark.get(key, 0):nxt]
+                    new = [e_ for e_ in s["log"] if q0 < e_[4] < q1]       # the callbacks that ran between begin and end of this pass
                     sop = s["op"]
-                    if not s["active"]:
+                    if not s["active"] and s.get("ended_seq", 0) > q1:
+                        pass        # ended only after this pass had finished (a later pass of the same operation): live throughout this one
+                    elif not s["active"]:
                         res.count("after_unsubscribe_checked")
                         eq = s.get("ended_seq", 0)
                         if q0 < eq < q1:
@@ -333,6 +355,15 @@ def run_case(c, res):
                                 s["notified"] += 1
                         elif new:
                             res.violation(f"C14:callback-after-{s['ended_by']}", f"subscription {key} of consumer {sop['app']} was notified after its {s['ended_by']}", ctx)
+                        continue
+                    if not s["active"] and not dirty:
+                        continue
+                    if dirty:
+                        # the store changed while the pass was under way (and a nested pass ran inside it): what each pass
+                        # should have seen is ambiguous -- only the cadence rule below and the after-end rule are judged
+                        if new:
+                            s["last"] = t_att
+                            s["notified"] += len(new)
                         continue
                     sel = [o["rec"] for o in objs_now if o["type"] in sop["types"]]
                     want = [r_ for r_ in sel if sop["filter"] is None or ref_match(r_, sop["filter"])]
@@ -377,6 +408,19 @@ def run_case(c, res):
                             res.violation(f"C14:notified-set-differs[{'missing' if missing else 'extra'}]", f"subscription {key}: got {len(got)}, expected {len(want)} ({len(missing)} missing, {len(extra)} extra)", ctx)
                         elif sop["order"] and len(got) > 1 and not check_order(got, sop["order"]):
                             res.violation("C14:notified-order-differs", f"subscription {key}: not ordered by {sop['order']}", ctx)
+        # ---------------------------------------------------------------- cadence over the whole callback log
+        # whatever happened inside callbacks (re-entrant attendance included): two notifications of one subscription are
+        # never closer than its interval (at the LDM's one-second resolution)
+        for key, s in subs.items():
+            iv = s["op"]["interval_ms"]
+            if not iv or iv < 1000:
+                continue
+            for (a_, b_) in zip(s["log"], s["log"][1:]):
+                res.count("notification_spacings_checked")
+                if b_[0] - a_[0] <= iv - 1000:
+                    res.violation("C14:notified-although-interval-not-elapsed[two-notifications-inside-one-interval]",
+                                  f"subscription {key}: notifications {b_[0] - a_[0]} ms apart, interval {iv} ms", {"ops": c["ops"]})
+                    break
     finally:
         clock.uninstall()
 
